@@ -669,3 +669,34 @@ Goal exists fd,
     good_C10_lex CSW Proofs.C10_SWKeys.k_text_before = true /\ c10_sw_recognise Proofs.C10_SWKeys.k_text_before = None.
 Proof. exact Props.C10.C10_swift_key_keyword_fixed. Qed.
 Print Assumptions Props.C10.C10_swift_key_keyword_fixed.
+Goal forall (uc : unicode) (v : rvariant) (st : sw_state) (sv : sw_variant) (st' : sw_state),
+    c10_ident_ok (original (vid (variant_shared v))) = true ->
+    sw_unit_variant_of uc v st = Ok (sv, st') -> swv_name sv <> []%list ->
+    Proofs.C10_SWGrammarTok.c10_sw_ident_ok (swv_name sv) = true.
+Proof. exact Props.C10.C10_swift_unit_case_ident. Qed.
+Print Assumptions Props.C10.C10_swift_unit_case_ident.
+Goal exists sv sv' st st',
+    c10_ident_ok (lit "_1st") = true /\
+    sw_unit_variant_of uc_exec (VUnit {| vid := Proofs.C10_SWGrammarFile.w_id "_1st"; vcomments := []%list |}) false = Ok (sv, st) /\
+    swv_name sv = lit "_1st" /\
+    sw_unit_variant_of uc_exec (VUnit {| vid := Proofs.C10_SWGrammarFile.w_id "FirstOne"; vcomments := []%list |}) false = Ok (sv', st') /\
+    swv_name sv' = lit "firstOne" /\
+    Proofs.C10_SWGrammarTok.c10_sw_ident_ok (lit "1st") = false.
+Proof. exact Props.C10.C10_swift_unit_case_ident_nonvacuous. Qed.
+Print Assumptions Props.C10.C10_swift_unit_case_ident_nonvacuous.
+Goal exists fd fdr,
+    Proofs.C10_SWFile.c10_sw_cfg_ok Proofs.C10_SWUnitDigit.u_cfg = true /\ dom_C10 CSW Proofs.C10_SWUnitDigit.u_prog = true /\
+    known_C10 CSW [] Proofs.C10_SWUnitDigit.u_prog = [] /\
+    sw_generate uc_exec Proofs.C10_SWUnitDigit.u_cfg Proofs.C10_SWUnitDigit.u_prog = Ok Proofs.C10_SWUnitDigit.u_text /\
+    good_C10_lex CSW Proofs.C10_SWUnitDigit.u_text = true /\ c10_sw_recognise Proofs.C10_SWUnitDigit.u_text = Some 2%nat /\
+    sw_file_decls uc_exec Proofs.C10_SWUnitDigit.u_cfg Proofs.C10_SWUnitDigit.u_prog = Ok fd /\
+    List.map (fun d => List.map vd_name (d_variants d)) (fd_decls fd) = [[lit "_1st"; lit "_2nd"]]%list /\
+    List.map (fun d => List.map vd_wire (d_variants d)) (fd_decls fd) = [[lit "_1st"; lit "_2nd"]]%list /\
+    dom_C10 CSW Proofs.C10_SWUnitDigit.u_prog_renamed = true /\ known_C10 CSW [] Proofs.C10_SWUnitDigit.u_prog_renamed = [] /\
+    sw_generate uc_exec Proofs.C10_SWUnitDigit.u_cfg Proofs.C10_SWUnitDigit.u_prog_renamed = Ok Proofs.C10_SWUnitDigit.u_text_renamed /\
+    good_C10_lex CSW Proofs.C10_SWUnitDigit.u_text_renamed = true /\ c10_sw_recognise Proofs.C10_SWUnitDigit.u_text_renamed = Some 2%nat /\
+    sw_file_decls uc_exec Proofs.C10_SWUnitDigit.u_cfg Proofs.C10_SWUnitDigit.u_prog_renamed = Ok fdr /\
+    List.map (fun d => List.map vd_wire (d_variants d)) (fd_decls fdr) = [[lit "x"; lit "_2nd"]]%list /\
+    good_C10_lex CSW Proofs.C10_SWUnitDigit.u_text_before = true /\ c10_sw_recognise Proofs.C10_SWUnitDigit.u_text_before = None.
+Proof. exact Props.C10.C10_swift_unit_digit_fixed. Qed.
+Print Assumptions Props.C10.C10_swift_unit_digit_fixed.
